@@ -65,7 +65,8 @@ func raceViolations(prop string) []sim.Violation {
 					cur, inAccess = nil, false
 				}
 			case inAccess && !strings.HasPrefix(t, "/") && strings.HasSuffix(t, ")"):
-				cur = append(cur, t) // a function line
+				// a function line (symbol names escape the dots of the last path element: socket%2eio-go)
+				cur = append(cur, strings.ReplaceAll(t, "%2e", "."))
 			}
 		}
 		if inAccess {
@@ -74,22 +75,26 @@ func raceViolations(prop string) []sim.Violation {
 		if len(accesses) < 2 {
 			continue
 		}
+		// The report counts when, for both accesses, the innermost frame that is neither the standard
+		// library's nor a third-party dependency's belongs to the repository. If it belongs to the
+		// harness (its handlers, its world, the lock shim), the race is the harness' own business: in
+		// this build the harness shares its state without synchronisation on purpose (sim.RaceBuild).
 		var tops []string
 		for _, acc := range accesses[:2] {
 			top := ""
-			for i, fn := range acc {
-				if i >= 6 {
-					break
-				}
+			for _, fn := range acc {
 				if strings.HasPrefix(fn, repoPkg) {
 					top = strings.TrimPrefix(fn, repoPkg)
+					break
+				}
+				if strings.HasPrefix(fn, "verif/dst/") || strings.HasPrefix(fn, "github.com/sasha-s/go-deadlock") || strings.HasPrefix(fn, "main.") {
 					break
 				}
 			}
 			tops = append(tops, top)
 		}
 		if tops[0] == "" || tops[1] == "" {
-			continue // one side is the application's (the harness') own code: not the library's race
+			continue
 		}
 		sort.Strings(tops)
 		sig := tops[0] + " <-> " + tops[1]
